@@ -143,6 +143,13 @@ def run_model(rec, pol, lo, hi, bins):
     return [float(x) for x in out.samples]
 
 
+def replay_any(rec, ctx):
+    if rec.get("part") == "quadrature":
+        from . import c02_quad
+        return c02_quad.replay(rec, ctx)
+    return replay(rec, ctx)
+
+
 def replay(rec, ctx):
     viol = []
     m = rec["model"]
@@ -222,6 +229,8 @@ def run(v):
         for x in vs:
             v.violation(x["sig"], x["detail"], r)
     v.add_cases(len(cases), keys=[json.dumps({k: r[k] for k in ("model", "pol", "cs", "bzero", "tsp", "broad", "window")}, sort_keys=True) for r in cases])
+    from . import c02_quad
+    c02_quad.run_part(v)
     v.sample(next(r for r in cases if r["model"] == "mse" and r["comps"]))
     v.sample(next(r for r in cases if r["model"] == "zeeman_multiplet" and r["pol"] == "sigma" and r["comps"]))
     v.assumptions += ["one plasma point, D-alpha, fixed flow and |B| = 2.5 T in four exact angle classes; Gaussian kernels compared bin by bin with erf differences (1e-9 R / bin width)",
@@ -235,6 +244,7 @@ def selftest():
            "comps": [{"w": [1, 1], "at": "c", "k": "g"}], "total": [1, 1]}
     good = replay(rec, None)
     bad = replay(dict(rec, comps=[{"w": [1, 2], "at": "c", "k": "g"}]), None)
-    ok = not good and bool(bad)
+    from . import c02_quad
+    ok = not good and bool(bad) and c02_quad.selftest()
     print("C02 selftest:", "ok" if ok else "FAILED", good[:1], bad[:1])
     return 0 if ok else 2
